@@ -128,6 +128,16 @@ var smPrepareFailure *vlib.Failure
 func smPrepare() {
 	smSuite = suiteFor(smA, smB, smC, smD, smE)
 	smSuiteFull = suiteFor(smA, smB, smC, smD, smE, smF, smG, smH, smI)
+	// header keys with zero values (no field line at all) and with one empty value, on preflights that otherwise pass
+	for _, o := range []string{"https://a.example", "http://b.example:81", "https://d.example"} {
+		for _, m := range []string{"GET", "PUT", "DELETE"} {
+			for _, k := range []string{"Access-Control-Request-Headers", "Access-Control-Request-Private-Network"} {
+				for _, v := range [][]string{{}, {""}} {
+					smSuiteFull = append(smSuiteFull, vlib.Req{Method: "OPTIONS", Hdr: map[string][]string{"Origin": {o}, "Access-Control-Request-Method": {m}, k: v}})
+				}
+			}
+		}
+	}
 	// the state-machine checks observe the whole suite after every step of every history: keep it to a few
 	// hundred requests (deterministic stride; the first block with the non-CORS probes is kept whole)
 	const maxSuite = 360
